@@ -57,11 +57,16 @@ func (node *tagBlockNode) Execute(ctx *ExecutionContext, writer TemplateWriter) 
 	}
 
 	blockWrapper := blockWrappers[lenBlockWrappers-1]
+	enclosingBlock, isNested := ctx.Private["block"]
 	ctx.Private["block"] = tagBlockInformation{
 		ctx:      ctx,
 		wrappers: blockWrappers[0 : lenBlockWrappers-1],
 	}
 	err := blockWrapper.Execute(ctx, writer)
+	if isNested {
+		// block.Super after a nested block refers to the enclosing block again
+		ctx.Private["block"] = enclosingBlock
+	}
 	if err != nil {
 		return err
 	}
